@@ -19,9 +19,11 @@ RULE = (
     'Differential oracle, no expected values: every base record (all '
     'ternary records rain in {0,=s,>s} x increment in {fall, exactly j*dt, '
     '>j*dt} of the stated length on time steps 3600/1800/1200/600 s; all '
-    'event words (S D)^m with the full workflow to both master curves) is '
+    'event words (S D)^m with the full workflow to both master curves, on '
+    'steps from one second to one day) is '
     'run at the base origin and again at each origin of the menu: shifts of '
-    'm time steps for m in {1,2,3,5,7,1000,2^17,10^6,-4099} and the same '
+    'm time steps for m in {1,2,3,5,7,1000,2^17,10^6,-4099}, the origins '
+    '1975-01-01 and 2040-01-01 (beyond 2^31 s) and the same '
     'wall-clock text declared in Etc/GMT+5, Etc/GMT-3, Asia/Kolkata, '
     'Asia/Kathmandu.  All classification and master-curve tables, with the '
     'known shift subtracted from every epoch column, must be identical '
@@ -30,7 +32,7 @@ RULE = (
     'of the menu.  Non-trivial = the base run recorded at least one '
     'interval.')
 ASSUMPTIONS = [
-    'fixed-offset zones only (the statement says so); 2020 dates',
+    'fixed-offset zones only (the statement says so); dates 1975-2040',
     'float columns (offsets, crossings, curve values) compared to 1e-9 '
     'relative to the largest magnitude in the column, integers exactly',
 ]
@@ -50,18 +52,20 @@ VIEWS = ['average_rising_depth', 'average_recession_time',
 VIEW_EPOCH_COLS = {'storm_total_rain_depth': [0],
                    'rising_curve_line_segment': [0]}
 EVENT_CONFIGS = [('uniform', 2.0, 1200, 1.0), ('convex', 0.5, 600, 0.5),
-                 ('concave', 2.0, 3600, 0.3), ('uniform', 0.5, 1800, 2.5)]
+                 ('concave', 2.0, 3600, 0.3), ('uniform', 0.5, 1800, 2.5),
+                 # one-second and one-day steps
+                 ('uniform', 2.0, 1, 1.0), ('convex', 0.5, 86400, 0.5)]
 A0 = 16
 
 
 def BOUND(tier):
     return {
         'quick': 'ternary records n=3 on 4 combos and n=4 on dt=1200, 600; event '
-                 'words (S D)^2 on 2 configurations; 13 origins each; CLI: '
+                 'words (S D)^2 on 3 configurations (steps 20 min, 10 min, 1 s); 15 origins each (incl. 1975 and 2040); CLI: '
                  'n=3',
         'thorough': 'ternary records n<=5 on 5 combos, n=6 on dt=1200; event '
-                    'words (S D)^2 on 4 configurations, (S D)^3 on one; 13 '
-                    'origins each; CLI: n<=4',
+                    'words (S D)^2 on 6 configurations (steps from 1 s to 1 d), (S D)^3 on one; 15 '
+                    'origins each (incl. 1975 and 2040); CLI: n<=4',
     }[tier]
 
 
@@ -104,7 +108,7 @@ def spaces(tier):
             out.append(tern_space(4, combo))
         out.append(tern_space(3, cs.COMBOS[2], base_level=-171.6))
         out.append(tern_space(3, cs.COMBOS[3], base_level=4097.75))
-        for config in EVENT_CONFIGS[:2]:
+        for config in EVENT_CONFIGS[:2] + EVENT_CONFIGS[4:5]:
             out.append(event_space(2, config))
     else:
         for n in (3, 4):
@@ -183,8 +187,15 @@ def differences(base, other):
     return bad
 
 
+FAR_ORIGINS = [('1975-01-01', 157766400), ('2040-01-01', 2208988800)]
+
+
 def origins(dt):
     out = [('shift %d steps' % m, 'UTC', 0, m * dt) for m in SHIFT_STEPS]
+    for label, epoch in FAR_ORIGINS:
+        # decades away, the later one beyond 2^31 s (whole steps from T0)
+        out.append(('origin ' + label, 'UTC', 0,
+                    (epoch - records.T0_DEFAULT) // dt * dt))
     for zone, off in ZONES:
         # same wall-clock text read in a zone `off` east of UTC: every
         # instant moves by -off
